@@ -53,14 +53,21 @@ fn new_sim(env: &Env, chain: &Chain, old: Option<Sim>) -> Sim {
     world.add_peer(2, 0, chain.tip_number());
     client::set_now(world::BASE_TS + 1_000_000);
     let mut sim = match old {
+        // the store of `old` was recycled from the synced template: everything but the pool and
+        // the relay state (both in memory, rebuilt) is as after the sync
         Some(old) => Sim::recycle(old, cfg, world),
-        None => scen::new_sim(env, cfg, world),
+        None => {
+            let mut sim = scen::new_sim(env, cfg, world);
+            crate::verif_hooks::rng_reset(18);
+            scen::register(&sim, &[(env.scripts.a.clone(), crate::storage::ScriptType::Lock, 0)]);
+            sim.connect(1);
+            sim.connect(2);
+            sim.converge(60);
+            // from now on every recycled client starts from this synced store
+            sim.template = std::sync::Arc::new(crate::verif::client::Template { dir: env.template.dir.clone(), dump: sim.c().db_dump() });
+            sim
+        }
     };
-    crate::verif_hooks::rng_reset(18);
-    scen::register(&sim, &[(env.scripts.a.clone(), crate::storage::ScriptType::Lock, 0)]);
-    sim.connect(1);
-    sim.connect(2);
-    sim.converge(60);
     {
         let mut addrs = sim.c().out.peer_addrs.lock().unwrap();
         addrs.clear();
@@ -129,6 +136,7 @@ fn mutation_cases(env: &Env, chain: &Chain) -> Vec<(String, Vec<TransactionView>
     let (op0, cap0) = cell(chain, 0);
     let (op1, cap1) = cell(chain, 1);
     let base = valid(env, chain, 0);
+    let first_committable = chain.tip_number() + 1 + env.consensus.tx_proposal_window().closest();
     let mut v: Vec<(String, Vec<TransactionView>, TransactionView, bool)> = vec![];
     let mut case = |label: &str, pre: Vec<TransactionView>, tx: TransactionView, ok: bool| v.push((label.to_owned(), pre, tx, ok));
     case("valid", vec![], base.clone(), true);
@@ -159,7 +167,9 @@ fn mutation_cases(env: &Env, chain: &Chain) -> Vec<(String, Vec<TransactionView>
     case("dep-group/empty-data", vec![], build_tx(&[dep.clone(), bad_group], &[op0.clone()], &[OutSpec::lock(&s.b, cap0 - 1)], 11), false);
     // immature since
     for (label, since) in [
-        ("absolute-block/tip+1", chain.tip_number() + 1),
+        // (a submitted transaction is verified for the first block that can commit it:
+        // tip + 1 + the closest end of the proposal window)
+        ("absolute-block/first-committable+1", first_committable + 1),
         ("absolute-block/far", 1u64 << 40),
         ("relative-block/100", 0x8000_0000_0000_0000 | 100),
         ("absolute-epoch/far", 0x2000_0000_0000_0000 | (1u64 << 40) | 1000),
@@ -172,7 +182,7 @@ fn mutation_cases(env: &Env, chain: &Chain) -> Vec<(String, Vec<TransactionView>
             .build();
         case(&format!("immature-since/{}", label), vec![], tx, false);
     }
-    for (label, since) in [("absolute-block/1", 1u64), ("absolute-block/tip", chain.tip_number())] {
+    for (label, since) in [("absolute-block/1", 1u64), ("absolute-block/tip", chain.tip_number()), ("absolute-block/tip+1", chain.tip_number() + 1), ("absolute-block/first-committable", first_committable)] {
         let tx = ckb_types::core::TransactionBuilder::default()
             .cell_dep(dep.clone())
             .input(packed::CellInput::new(op0.clone(), since))
@@ -219,6 +229,8 @@ pub(crate) enum Ev {
 struct Track {
     pool: VecDeque<usize>,
     opened: BTreeSet<usize>,
+    /// opened peers that were told something since they connected
+    active: BTreeSet<usize>,
     /// (tx, peer) pairs announced so far
     announced: BTreeSet<(usize, usize)>,
     /// since the last (re-)submission of the transaction
@@ -294,6 +306,7 @@ impl<'a> PoolModel<'a> {
         for x in &announced_now {
             t.announced.insert(*x);
             t.announced_since_push.insert(*x);
+            t.active.insert(x.1);
         }
         // completeness of a relay tick / a relay connect: every member not yet announced to an
         // opened peer is announced now
@@ -353,7 +366,10 @@ impl<'a> Model for PoolModel<'a> {
         }
         // (with no opened peer the tick tries to open the protocol through the p2p service
         // control, which the recording context cannot provide)
-        if !t.opened.is_empty() && t.ticks < 3 {
+        // (... and a tick closes the protocol of an opened peer that was never told anything and
+        // has nothing to be told, through the same service control)
+        let all_active = t.opened.iter().all(|p| t.active.contains(p) || t.pool.iter().any(|i| !t.announced_since_push.contains(&(*i, *p))));
+        if !t.opened.is_empty() && all_active && t.ticks < 3 {
             v.push(Ev::RelayTick);
         }
         v
@@ -395,11 +411,13 @@ impl<'a> Model for PoolModel<'a> {
                     let mut t = self.track.borrow_mut();
                     t.connects += 1;
                     t.opened.insert(*p);
+                    t.active.remove(p);
                 }
                 sim.cm().relay_connect(PeerIndex::new(*p));
             }
             Ev::RelayDisconnect(p) => {
                 self.track.borrow_mut().opened.remove(p);
+                self.track.borrow_mut().active.remove(p);
                 let nc = crate::verif::net::as_nc(&sim.c().ctx_r);
                 let c = sim.cm();
                 use ckb_network::CKBProtocolHandler;
@@ -455,6 +473,10 @@ impl<'a> Model for PoolModel<'a> {
         for p in &t.opened {
             hasher.update(&[*p as u8]);
         }
+        hasher.update(&[0xfc]);
+        for p in &t.active {
+            hasher.update(&[*p as u8]);
+        }
         hasher.update(&[0xfe]);
         for (i, p) in &t.announced {
             hasher.update(&[*i as u8, *p as u8]);
@@ -475,7 +497,7 @@ pub(crate) fn run(opts: &Opts, report: &mut Report) {
     const SHARDS: usize = 16;
     // item 0: the mutation cases; items 1..: the pool / relay search
     let n_items = 1 + SHARDS;
-    let max_depth = if thorough { 7 } else { 5 };
+    let max_depth = if thorough { 6 } else { 4 };
     let worker = crate::verif::props::shard::run("C18", opts, report, n_items, 16, |item, report| {
         let env = Env::dummy();
         let chain = build_chain(&env);
@@ -499,7 +521,14 @@ pub(crate) fn run(opts: &Opts, report: &mut Report) {
                 sim.cm().relay_connect(PeerIndex::new(1));
                 sim.pump_out();
                 let o = submit(&mut sim, tx);
-                sim.cm().tick_relay();
+                if o.send.is_ok() {
+                    sim.cm().tick_relay();
+                } else {
+                    // (a tick with an idle relay peer closes the protocol through the p2p service
+                    // control, which the recording context cannot provide) a second relay peer
+                    // connects instead: it is told every pool member
+                    sim.cm().relay_connect(PeerIndex::new(2));
+                }
                 sim.pump_out();
                 let announced = sim.sent_log.iter().any(|s| {
                     s.proto == Proto::Relay
@@ -588,4 +617,25 @@ pub(crate) fn run(opts: &Opts, report: &mut Report) {
     report.set("rule", json!("(a) one case = one transaction (after its valid predecessors) through estimate_cycles and send_transaction on a synced client, verdict known by construction; (b) state = event list replayed on the real client against a reference pool (fingerprint: store + reference pool + opened peers + announcements + budgets); transitions = (state, enabled event) pairs executed"));
     report.set("bounds", json!({"pool_limit": LIMIT, "depth": max_depth, "budgets": "submit <= 5, invalid <= 1, relay tick <= 3, GetRelayTransactions <= 2, relay connect <= 3", "transactions": 5, "relay_peers": 2}));
     report.assume("always-success lock and type scripts; relay ticks only with an opened relay peer (the branch that re-opens the protocol needs the p2p service control); the 60 s Instant-based paths of relayer.rs are not reached");
+}
+
+#[allow(dead_code)]
+pub(crate) fn debug_case() {
+    let env = Env::dummy();
+    let chain = build_chain(&env);
+    let cases = mutation_cases(&env, &chain);
+    let mut old: Option<Sim> = None;
+    for (label, _pre, tx, _ok) in cases.iter().take(5) {
+        let mut sim = new_sim(&env, &chain, old.take());
+        println!("== {}", label);
+        sim.cm().relay_connect(PeerIndex::new(1));
+        sim.pump_out();
+        let o = submit(&mut sim, tx);
+        println!("send {:?} est {:?} status {:?} pool {:?}", o.send, o.estimate, o.status, o.pool_cycles);
+        let r = panics::catch(|| sim.cm().tick_relay());
+        println!("tick: {:?}", r.err().map(|p| p.describe()));
+        sim.pump_out();
+        println!("relay msgs {}", sim.sent_log.iter().filter(|s| s.proto == Proto::Relay).count());
+        old = Some(sim);
+    }
 }
